@@ -37,6 +37,7 @@ STORE_BYTES = [
     (r"^v128_store$", 16), (r"^v128_store32_lane$", 4), (r"^v128_store64_lane$", 8),
     (r"^v128_store16_lane$", 2), (r"^v128_store8_lane$", 1),
 ]
+FLOOR = {"x86": 100, "x86-rayon": 100, "arm": 40, "arm-rayon": 40, "wasm": 45}
 MODS = ("convolution::", "alpha::", "simd_utils::", "neon_utils::", "wasm32_utils::", "color::",
         "change_components_type")
 
@@ -149,9 +150,18 @@ def canonical(ctx, e, ptr_bits, depth=0):
             if x[0] in ("call", "callat") and _name(x) in ("get_unchecked_mut", "get_unchecked", "index_mut") \
                     and len(_args(x)) == 2:
                 r = _strip(_args(x)[1])
-                if r[0] == "agg" and "RangeFrom" in str(r[2]) and es:
-                    idx.append((r[4][0], es))
+                if r[0] == "agg" and "RangeFrom" in str(r[2]):
+                    inner = _strip(_args(x)[0])
+                    if es is None and inner[0] in ("local", "param"):
+                        et, _n = elem_of(ctx.fn.local_ty(inner[1]))
+                        es = ty_size(et, ptr_bits) if et else None
+                    idx.append((r[4][0], es))        # es None: the owner's element size
                     X = _args(x)[0]
+            if es is None:
+                x = _strip(X)
+                if x[0] in ("local", "param"):
+                    et, _n = elem_of(ctx.fn.local_ty(x[1]))
+                    es = ty_size(et, ptr_bits) if et else None
             return (X, es, idx, off)
         if n in ("get_unchecked_mut", "index_mut") and len(a) == 2:
             # &mut row[x] used as a pointer: owns one element
@@ -309,7 +319,7 @@ def owner_bytes(ctx, X, es, at, ptr_bits, depth=0):
         if n is not None:
             s = ty_size(et, ptr_bits)
             if s:
-                return ("ok", s * n, "%s: [%s; %d]" % (ctx.fn.local_name(x[1]) or "_%d" % x[1], et, n))
+                return ("ok", s * n, "%s: [%s; %d]" % (ctx.fn.local_name(x[1]) or "_%d" % x[1], et, n), s)
         if x[0] == "param":
             return ("param", x)
         if x[0] == "local":
@@ -473,18 +483,20 @@ def check(rep, prog, rule, floor=60):
 
     def resolve(ctx, X, es, idx, off, at, depth):
         """list of (bytes owned, offset bytes, how) over the calling contexts, or None"""
+        own = owner_bytes(ctx, X, es, at, ptr_bits)
+        if own is None:
+            return None
         # fold the symbolic index terms
         o = off
         for (ie, sc) in idx:
             k = _strip(_fold(ie))
-            if k[0] == "const" and isinstance(k[1], int):
+            if sc is None and own[0] == "ok" and len(own) > 3:
+                sc = own[3]
+            if k[0] == "const" and isinstance(k[1], int) and sc:
                 o += k[1] * sc
             else:
                 o = None
                 break
-        own = owner_bytes(ctx, X, es, at, ptr_bits)
-        if own is None:
-            return None
         if own[0] == "ok":
             if o is None:
                 return None
